@@ -382,10 +382,10 @@ func runC01(c *Ctx) {
 	}
 	// "changes the document only when … applicable": which validated JSON patches are applicable is the library's
 	// decision alone — the composer's own refusals are those of C10's closed set (a copy into itself)
-	c.jsonPatchFoldRule("C10.P1")
-	// … and "applicable" is said of the whole list: the composer applies every patch of the list, in order, each to the
-	// result of the one before (a patch that is skipped cannot make the delta inapplicable)
-	c.applyPatchesFoldRule("C10.P1")
+	// … and what an applicable delta does to the document is the composer's per-action semantics: the whole of C10 (action
+	// tables, handler write-sets, the left fold over the list, the handlers' decision skeletons, replace-by-id) is part of
+	// "the resolved state is the fold of the history"
+	runC10(c)
 }
 
 func numFields(n *types.Named) int {
